@@ -352,14 +352,14 @@ type lsMismatch struct {
 
 type lockstep struct {
 	oamLoose bool // stores into FE00-FEFF are not compared in memory (LCD on: C17's business)
-	m      *machine.Machine
-	ref    dmgref.CPU
-	cart   *dmgref.Cart
-	shadow [0x10000]byte
-	ifReg  uint8
-	ieReg  uint8
-	res    *engine.Result
-	sc     *engine.Scenario
+	m        *machine.Machine
+	ref      dmgref.CPU
+	cart     *dmgref.Cart
+	shadow   [0x10000]byte
+	ifReg    uint8
+	ieReg    uint8
+	res      *engine.Result
+	sc       *engine.Scenario
 
 	k          int // real cycles of the instruction in flight
 	instrs     int
